@@ -3,6 +3,7 @@ import ConfModel.Model.ReportScript
 import ConfModel.Spec.RunVerdict
 import ConfModel.Model.RunLoop
 import ConfModel.Model.FeedbackLine
+import ConfModel.Model.Cli
 namespace ConfModel.Driver.C04
 open Lean ConfModel.Driver ConfModel.Report ConfModel.RunVerdict
 
@@ -249,6 +250,52 @@ def handleInRun (inp impl : Json) : Verdict :=
     cls := (if clean then "clean-end" else "unclean-end") ++ (if pendingAtEnd then ":unanswered-pending" else "") ++
       (if want then ":all-answered" else ":not-all") ++ (if iOk then ":success" else ":failure") }
 
+/-! ### op "cliargs": the command line's own decisions; the model is `ConfModel.Cli.run`, followed by
+what `run()` does next with an accepted invocation: open the TLS files, look the command names up
+(client first).  Of the names used only `/bin/true` exists. -/
+
+def handleCliArgs (inp impl : Json) : Verdict :=
+  if !(isNull (field impl "panic")) then
+    { agree := false, holds := false, why := "panic: " ++ str (field impl "panic") } else
+  let given (k : String) : Bool := !(isNull (field inp k))
+  let fileVal (k : String) : String :=
+    if !(given k) then "" else let v := str (field inp k); if v = "" then "" else v
+  let a : Cli.Args :=
+    { version := bool (field inp "version")
+      mode := if given "mode" then str (field inp "mode") else ""
+      command := strList (field inp "command")
+      maxServers := if given "maxServers" then nat (field inp "maxServers") else 4
+      maxServersGiven := given "maxServers"
+      port := if given "port" then nat (field inp "port") else 0
+      portGiven := given "port"
+      parallel := if given "parallel" then nat (field inp "parallel") else 64
+      parallelGiven := given "parallel"
+      bindGiven := given "bind"
+      tlsCert := fileVal "cert", tlsCertGiven := given "cert"
+      tlsKey := fileVal "key", tlsKeyGiven := given "key" }
+  let exists_ (n : String) : Bool := n == "/bin/true"
+  let want : String :=
+    match Cli.run a with
+    | .version => "version"
+    | .refused r => r.name
+    | .proceed p =>
+      if a.tlsCert = "missing" then "open:cert"
+      else if a.tlsCert ≠ "" && a.tlsKey = "missing" then "open:key"
+      else
+        match p.client.head?, p.server.head? with
+        | some c, _ => if !(exists_ c) then "lookpath:" ++ c else
+            (match p.server.head? with
+             | some s => if !(exists_ s) then "lookpath:" ++ s else "runs"
+             | none => "runs")
+        | none, some s => if !(exists_ s) then "lookpath:" ++ s else "runs"
+        | none, none => "runs"
+  let got := str (field impl "class")
+  let ok := got == want
+  { agree := ok, holds := ok, nontrivial := !(Cli.run a matches .proceed _) || a.mode = "both",
+    model := Json.mkObj [("class", want)],
+    why := if ok then "" else "command line: `" ++ got ++ "` where run() as modelled decides `" ++ want ++ "`",
+    cls := "cliargs:" ++ (want.splitOn ":").headD "" }
+
 def handle : Handler := fun op inp impl =>
   match op with
   | "report" =>
@@ -360,6 +407,7 @@ def handle : Handler := fun op inp impl =>
   -- the same scenarios through the real command (exit status = verdict)
   | "runcli" => handleRunLoop inp impl
   | "inrun" => handleInRun inp impl
+  | "cliargs" => handleCliArgs inp impl
   | _ => bad ("C04: unknown op " ++ op)
 
 end ConfModel.Driver.C04
